@@ -1,4 +1,5 @@
 import TemplVerif.Base.Utf8
+import TemplVerif.Model.Url
 /-
 C20 — model of cmd/templ/generatecmd/proxy/proxy.go: `modifyResponse` (decision logic and length /
 encoding bookkeeping) and `parseNonce`. The HTML rewrite (x/net/html parse + append + render) and the
@@ -27,6 +28,10 @@ structure Env where
 
 def trueLit : Bytes := [116, 114, 117, 101]                       -- "true"
 def textHtml : Bytes := [116, 101, 120, 116, 47, 104, 116, 109, 108]    -- "text/html"
+/-- `strings.HasPrefix(strings.ToLower(ct), "text/html")`: media types are case-insensitive (ASCII letters). -/
+def isHtml (ct : Bytes) : Bool :=
+  List.isPrefixOf textHtml (ct.map fun b => if 65 ≤ b && b ≤ 90 then b + 32 else b)
+
 def gzipLit : Bytes := [103, 122, 105, 112]
 def brLit : Bytes := [98, 114]
 
@@ -75,7 +80,7 @@ def nonceOfDirectives : List Bytes → Bytes
   | d :: rest =>
     match fields d with
     | name :: s1 :: more =>
-      if name == scriptSrc then
+      if TemplVerif.Url.equalFold name scriptSrc then   -- strings.EqualFold
         match nonceOfSources (s1 :: more) with
         | some n => n
         | none => nonceOfDirectives rest
@@ -93,7 +98,7 @@ deriving Repr, DecidableEq
 /-- `modifyResponse` -/
 def modify (env : Env) (r : Resp) : Outcome :=
   if r.skipModify == trueLit then .resp r
-  else if !List.isPrefixOf textHtml r.contentType then .resp r
+  else if !isHtml r.contentType then .resp r
   else
     let codec : Option ((Bytes → Option Bytes) × (Bytes → Bytes)) :=
       if r.contentEncoding == gzipLit then some (env.gzipDec, env.gzipEnc)
